@@ -1,31 +1,58 @@
 # plan and claim for C17 (DRBGs); J and both are injected by driver/plan.py
 _CFG = ["avx2", "noaes", "purego"]   # library SM3/SM4: AVX2+AES-NI asm, table-driven Go (cpu.aes=off), purego build
+# the monitors allocate a fresh caller buffer and snapshot per call and the model is allocation-heavy: with the default GOGC a
+# quarter of the CPU time is garbage collection of a 20 MB heap. Collector pacing only; nothing observed depends on it.
+_GC = {"GOGC": "300"}
 
 PLAN = dict(
     level="exploration",
     rule="c17.history: one case = one random walk of 12-30 operations over {Generate(n, additional?), Reseed(entropy, additional?)} "
-         "on one of 28 generator configurations (Hash and HMAC over SM3/SHA-256/SHA-512/SHA-1/SHA-384, CTR over SM4/AES-128/192/256, "
-         "each in NIST and GM mode) at the test level (interval 8; 1 in 12 histories at level one/two), constructor and reseed "
-         "input lengths from {0,1,min-1,min,2min,200}, request sizes from {0,1,15,16,17,31,32,33,55,111,2047,2048,2049, block-1, "
-         "block, block+1, 2block+1, 4096, 2049..4096, 65536(thorough)}, every output compared with harness/ref/drbg driven by the same history; "
-         "plus one case per configuration with requests of max+1, 4097, 65536 and 65537 bytes (all to be refused) and (thorough) one case "
-         "that sleeps through the 6 s GM reseed time interval. c17.reader: 6-14 Read calls of sizes {0,1,max-1,max,max+1,5max+3,random} on the reader wrapper with a scripted "
+         "on one of 40 generator configurations (Hash and HMAC over SM3 and every hash function of SP 800-90A table 2 - SHA-1, SHA-224, "
+         "SHA-512/224, SHA-256, SHA-512/256, SHA-384, SHA-512 -, CTR over SM4/AES-128/192/256, each in NIST and GM mode; SM3, SHA-256, SHA-512 "
+         "and the ciphers get 500 histories each, the other hashes 200) at the test level (interval 8; 1 in 12 histories at level one/two), "
+         "constructor and reseed input lengths from {0,1,min-1,min,2min,200}, request sizes from {0,1,15,16,17,31,32,33,55,111,2047,2048,2049, block-1, "
+         "block, block+1, 2block+1, 4096, 2049..4096, 65536(thorough)}, every output compared with harness/ref/drbg driven by the same history. "
+         "CALLER MEMORY (every call of every workload, wl/c17/arena.go): the arguments of a call - entropy, nonce, personalisation string, additional "
+         "input, output buffer / Read destination - are cut out of one dirty caller buffer in random order, adjacent or 1-3 bytes apart, each "
+         "slice with spare capacity to the end of the buffer, part of it, or none (1 call in 4: separate exactly sized allocations; empty requests "
+         "also through nil slices); after the call the buffer must equal its snapshot outside the output slice, then every byte the library was "
+         "given (and the compared output) is inverted so that a retained reference changes every later result. 1 history in 8 builds a twin "
+         "generator from the same caller memory through the other constructor and uses it in between. "
+         "Plus one case per configuration with requests of max+1, 4097, 65536 and 65537 bytes (all to be refused) and (thorough) one case "
+         "that sleeps through the 6 s GM reseed time interval. c17.levels: one case = one generator or reader wrapper walked through a whole reseed "
+         "interval: level two (every configuration, general and NIST/GM constructors; half of the cases reseed once inside the interval first): "
+         "calls 1..1024 since the last (re)seed served and equal to the model, NeedReseed() then true, the following ones (sizes 1, block, 0, max+1) "
+         "refused untouched, too short GM reseed refused, Reseed, served again; level one (SM3, SHA-512, SM4, AES-256 configurations): quick the first 1100 calls served, thorough all 2^20 "
+         "compared and the 2^20+1st refused; undefined SecurityLevel bytes (0x00, 0x03, 0x98, 0xff): first refusal only at call 9, 1025 or 2^20+1; "
+         "wrappers at level two: 1024 chained requests, the 1025th in the middle of a Read draws entropy exactly once; at level one none in 1100. "
+         "c17.options: CTR constructors and wrappers with key lengths the cipher does not have (error required); entropy / personalisation / "
+         "additional input of MAX_BYTES+1 bytes (refusal leaves the state and the interval count untouched, or served as specified); nil entropy "
+         "source (crypto/rand): counts, no error, destination filled, nothing else written, two identically built wrappers differ. "
+         "c17.reader: 6-14 Read calls of sizes {0,1,max-1,max,max+1,5max+3,random} on the reader wrapper with a scripted "
          "entropy source. c17.faults (fault enumeration): configuration x {5 mon.FaultKind, stream ends} x source call index 0..6 "
          "(0 entropy, 1 nonce, 2..5 reseeds, 6 control). c17.timerule (quick and thorough, avx2 only, one case): generators and reader "
-         "wrappers of all 28 configurations are created, the 6 s test-level interval is slept through once, then GM generators must refuse, "
+         "wrappers of all 40 configurations are created, the 6 s test-level interval is slept through once, then GM generators must refuse, "
          "accept a Reseed and serve again (bytes equal to the model), NIST twins must serve, and the wrappers' Read must succeed with exactly one "
          "reseed from the scripted source (Script.MaxBytes turns an endless reseed loop into a violation). distinct = class keys (configuration | operation / size or length class / "
          "additional input / position of the reseed counter / outcome); no case is trivial",
-    jobs=both("c17.history", _CFG + ["avx", "sse", "aesni1", "ia32"], shards=(2, 8), floor=2000)  # SM3 AVX/SSSE3 blocks (Hash/HMAC over SM3), single-block AES-NI SM4 (CTR_DRBG)
-    + both("c17.reader", _CFG + ["ia32"], shards=(1, 4), floor=300)
-    + both("c17.faults", _CFG, shards=(1, 2), floor=1000)
-    # one case, one process, one sleep of 6.3 s: the GM reseed time rule in every tier
-    + [J("c17.timerule", configs=["avx2"], variant="asm", shards=(1, 1), floor=1)],
-    exhaustive_note="c17.faults enumerates completely: 28 configurations (thorough: x every strength class of the wrapper) x 6 fault shapes x every entropy-source call index of a fixed "
+    # first: one case, one process, one sleep of 6.3 s (the GM reseed time rule in every tier) - it overlaps with the rest
+    jobs=[J("c17.timerule", configs=["avx2"], variant="asm", shards=(1, 1), floor=1)]
+    + both("c17.history", _CFG + ["avx", "sse", "aesni1"], shards=(2, 8), floor=2000, env=_GC)  # SM3 AVX/SSSE3 blocks (Hash/HMAC over SM3), single-block AES-NI SM4 (CTR_DRBG)
+    # the 32-bit build runs the histories at half the speed: three shards, so that it is not the tail of every quick run
+    + [J("c17.history", configs=["ia32"], variant="ia32", shards=(3, 8), floor=2000, env=_GC)]
+    # whole reseed intervals of levels two / one / undefined level bytes: counter logic of drbg/common.go, pure Go and the same in
+    # every dispatch tier and in the purego build (64-bit build and 32-bit build: uint64 counters); thorough walks 2^20 calls per case
+    + both("c17.levels", ["avx2", "ia32"], shards=(2, 8), floor=200, deadline="120s", env=_GC)
+    + both("c17.reader", _CFG + ["ia32"], shards=(1, 4), floor=300, env=_GC)
+    + both("c17.faults", _CFG, shards=(1, 2), floor=1000, env=_GC)
+    + both("c17.options", ["avx2", "ia32"], shards=(1, 1), floor=80),
+    exhaustive_note="c17.faults enumerates completely: 28 configurations (the three hash functions added for table 2 are left out: the wrapper's treatment of a failing source does not depend on the hash; thorough: x every strength class of the wrapper) x 6 fault shapes x every entropy-source call index of a fixed "
                     "Read script that crosses the reseed interval four times (level fault_enumeration for that workload)",
     assumptions=["harness/ref/drbg implements SP 800-90A Rev.1 Hash_DRBG/HMAC_DRBG/CTR_DRBG(df) and the GM/T 0105 variations the package "
                  "documents (validated before every run against the 53 CAVP / GM/T 0105 vectors of the package's table tests incl. every "
-                 "intermediate working state, and HMAC against crypto/hmac)",
+                 "intermediate working state, HMAC against crypto/hmac, and - for every row of SP 800-90A table 2, whose seedlen the model takes from a literal "
+                 "copy of that table - 28 known answers for Hash_DRBG and HMAC_DRBG computed with OpenSSL 3.0 EVP_RAND (ref/drbg/vectors_openssl.go; the "
+                 "generating program first reproduces a CAVP row))",
                  "Go standard library SHA-1/SHA-2/AES and the harness references ref/sm3, ref/sm4 are right",
                  "GM reseed time interval: decided by bracketing with the monotonic clock (refusal required if the call began more than "
                  "the interval after the last (re)seed returned, forbidden if it returned within the interval after the (re)seed began, "
@@ -34,19 +61,29 @@ PLAN = dict(
                  "mechanisms (2048 bytes; one hash/cipher block for Hash and CTR in GM mode), which lies below SP 800-90A's 2^19 bits: a larger "
                  "request must be refused without touching buffer or state (when the reseed is due as well, either error is accepted)",
                  "GM/T 0105 defines no HMAC generator: in GM mode the HMAC constructor may or may not apply the minimum entropy/nonce length "
-                 "that its Reseed documents"],
+                 "that its Reseed documents",
+                 "inputs longer than the package's MAX_BYTES (2^27) but within SP 800-90A's 2^35 bits may be refused or served as specified; "
+                 "a SecurityLevel byte other than the three constants must behave like one of the three defined levels",
+                 "not decided: an output slice that overlaps the additional input (unspecified); hash functions outside SP 800-90A table 2 "
+                 "(SHA-3) and block ciphers other than AES/SM4 (TDEA needs 168-bit keys the constructor cannot express); additional input above MAX_BYTES on Generate"],
 )
 
 CLAIM = dict(
-    text="Runtime monitoring of drbg.New{Hash,Hmac,Ctr}Drbg (+NIST/GM constructors) and the DrbgPrng reader wrappers: every output of "
+    text="Runtime monitoring of drbg.New{Hash,Hmac,Ctr}Drbg (+NIST/GM constructors) and the DrbgPrng reader wrappers over SM3, every hash "
+         "function of SP 800-90A table 2 and SM4/AES-128/192/256: every output of "
          "random operation histories that cross the reseed interval several times equals an independent SP 800-90A / GM/T 0105 state-machine "
          "model byte for byte; past the interval every Generate must return ErrReseedRequired with the marker-filled buffer unchanged and "
-         "the state unchanged (the history continues against the model that did not move); documented length bounds of constructors and "
-         "Reseed are checked in both directions; Read must deliver exactly the requested bytes, equal to the model chaining requests and "
+         "the state unchanged (the history continues against the model that did not move) - at the test level in random histories and, call by "
+         "call through whole intervals, at level two (1024), level one (thorough: 2^20) and for undefined level bytes, for generators and wrappers; "
+         "documented length bounds of constructors and "
+         "Reseed are checked in both directions; every call gets its arguments cut from one dirty caller buffer with spare capacity in random "
+         "order, must leave that buffer unchanged outside the output slice, and must not depend on it afterwards (it is inverted after every call); "
+         "Read must deliver exactly the requested bytes, equal to the model chaining requests and "
          "reseeding from the scripted entropy source. Level exploration for histories and reader sizes; fault_enumeration for the entropy "
          "source failing or short at every call index (error required, no panic, persistent failure stays an error).",
     design_ref="DESIGN.md 6 (C17)",
-    note="trusted: harness/ref/drbg (+ref/sm3, ref/sm4, Go stdlib hashes/AES), monotonic clock for the bracketed GM time rule; "
+    note="trusted: harness/ref/drbg (+ref/sm3, ref/sm4, Go stdlib hashes/AES; OpenSSL 3.0 as the source of the known answers for SHA-224, SHA-384, "
+         "SHA-512/224, SHA-512/256), monotonic clock for the bracketed GM time rule; "
          "the GM time rule is observed positively by one case per run (c17.timerule, one 6.3 s sleep; thorough adds a second case per configuration)",
-    technique="history monitor against a reference state machine + scripted entropy source with fault enumeration + panic monitor",
+    technique="history monitor against a reference state machine + caller-memory snapshots + scripted entropy source with fault enumeration + panic monitor",
 )
